@@ -763,15 +763,13 @@ impl Element {
                     Ok(())
                 })?;
                 let child_ident = w.declare_var_on_top_scope_init(|w, ident| {
-                    let mut list_iter: Box<dyn Iterator<Item = &Node>> = Box::new([].iter());
-                    for children in branches
+                    // (a flat iterator: chaining one boxed iterator per branch recursed once per branch)
+                    let list: Vec<&Node> = branches
                         .iter()
                         .map(|(_, _, y)| y)
                         .chain(else_branch.as_ref().map(|(_, y)| y))
-                    {
-                        list_iter = Box::new(list_iter.chain(children.iter()));
-                    }
-                    let list: Vec<&Node> = list_iter.collect();
+                        .flat_map(|children| children.iter())
+                        .collect();
                     Node::to_proc_gen_define_children(
                         &mut list.into_iter(),
                         w,
